@@ -220,3 +220,71 @@ func FirstUse(seed int64, rounds int) []Mismatch {
 	}
 	return mms
 }
+
+// RunTicking: one caller, a clock that moves on with every reading (a real clock never stands still during a call:
+// the expiry sweep and the gating of one Process call see different instants). Which group an event joins then
+// depends on the instant each decision was made, but conservation does not: with a Broker every accepted event is in
+// exactly one composite once a final FlushAll returned, a composite holds events of one id only, and the events of
+// an id come out in the order they went in.
+func RunTicking(seed int64) []Mismatch {
+	var mms []Mismatch
+	bad := func(props []string, what string, exp, obs interface{}) {
+		if len(mms) < 4 {
+			mms = append(mms, Mismatch{Props: props, What: what, Expected: exp, Observed: obs})
+		}
+	}
+	rng := rand.New(rand.NewSource(seed))
+	cc := &cctrl{}
+	var reads int64
+	step := time.Millisecond
+	f := &gated.Filter{Broker: &csender{}, Expiration: time.Duration(2+rng.Intn(60)) * step,
+		NowFunc: func() time.Time { reads++; return t0.Add(time.Duration(reads) * step) }}
+	ctx := context.Background()
+	ids := []string{"x", "y", "z"}
+	idOf := map[int]string{}
+	var accepted []int
+	n := 30 + rng.Intn(90)
+	for i := 1; i <= n; i++ {
+		switch x := rng.Intn(100); {
+		case x < 88:
+			id := ids[rng.Intn(1+rng.Intn(3))]
+			idOf[i] = id
+			e := &eventlogger.Event{Type: "t", CreatedAt: t0, Payload: &cpay{ID: id, Flush: rng.Intn(6) == 0, Ord: i, cc: cc}, Formatted: map[string][]byte{}}
+			if _, err := f.Process(ctx, e); err == nil {
+				accepted = append(accepted, i)
+			}
+			if rng.Intn(4) == 0 {
+				reads += int64(rng.Intn(40)) // time passes between calls as well
+			}
+		case x < 96:
+			f.FlushAll(ctx)
+		default:
+			f.Close(ctx)
+		}
+	}
+	if err := f.FlushAll(ctx); err != nil {
+		bad([]string{"C17"}, "final FlushAll with a Broker that never fails", "nil", err.Error())
+	}
+	seen := map[int]int{}
+	last := map[string]int{}
+	for _, c := range cc.comps {
+		for _, o := range c {
+			seen[o]++
+			if idOf[o] != idOf[c[0]] {
+				bad([]string{"C11"}, "a composite mixes ids (clock ticking with every reading)", idOf[c[0]], fmt.Sprint(c))
+			}
+			if o < last[idOf[o]] {
+				bad([]string{"C11"}, "events of one id left the filter out of order (clock ticking with every reading)", "arrival order", fmt.Sprint(cc.comps))
+			}
+			last[idOf[o]] = o
+		}
+	}
+	for _, o := range accepted {
+		if seen[o] != 1 {
+			bad([]string{"C11", "C17"}, fmt.Sprintf("accepted event %d (id %s) is in %d composites after the final FlushAll returned nil (clock ticking with every reading, expiration %v, %d calls)", o, idOf[o], seen[o], f.Expiration, n),
+				1, fmt.Sprint(cc.comps))
+			break
+		}
+	}
+	return mms
+}
